@@ -340,10 +340,16 @@ def r5(ctx: Ctx) -> None:
     loops = [lp for lp in c if lp[0] == "for"]
     ctx.site(f.where, "edge loop: i in range(len(vertices)), second endpoint vertices[(i + 1) % n]", loops=len(loops))
     ok = False
-    if len(loops) == 1 and loops[0][2] == ("c", ("g", "range"), (n,), ()):
-        i = loops[0][1]
+    # the edges are walked by a loop or by a comprehension (counting crossings): either way over range(n), reading
+    # vertices[i] and vertices[(i + 1) % n]
+    walks = [(lp[1], lp[2], lp[3]) for lp in loops]
+    for cp in atoms_of(c, lambda x: x[0] == "comp" and len(x) == 4 and len(x[3]) == 1):
+        walks.append((cp[3][0][0], cp[3][0][1], (cp[2], cp[3][0][2])))
+    walks = [w for w in walks if w[1] == ("c", ("g", "range"), (n,), ())]
+    if len(walks) == 1:
+        i, _, body_ = walks[0]
         nxt = ("s", verts, ("bin", "Mod", (to_poly(i) + Poly.const(1)).to_s(), n))
-        ok = contains(loops[0][3], nxt) and contains(loops[0][3], ("s", verts, i))
+        ok = contains(body_, nxt) and contains(body_, ("s", verts, i))
     if not ok:
         # an explicit closing of the ring is acceptable as well: zip(vertices, vertices[1:] + vertices[:1])
         ok = contains(c, ("g", "zip")) and contains(c, ("slice", K_NONE if False else ("k", "none"), k_num(1), ("k", "none")))
